@@ -538,3 +538,31 @@ def new_engine(repo=None):
     E.max_const_unroll = 64
     install(E)
     return E
+
+
+def summarize_bool(E, key, setup):
+    """symbolically execute the real body of a boolean function once and return
+    (result formula, raising-condition formula, paths): the function summary used inside
+    quantified lemmas (comparator laws)"""
+    fref = E.repo.find_function(key)
+    if fref is None:
+        raise SpecError(f"{key} not found")
+    st = State()
+    E.current_func.append(fref)
+    try:
+        params = setup(E, st)
+    finally:
+        E.current_func.pop()
+    base = len(st.pc)
+    assumptions = list(st.pc)
+    frame = E.bind_args(fref, [], dict(params), st)
+    results = E.run_body(st, fref, frame)
+    val, exc = [], []
+    for s, v in results:
+        cond = z3.And(*s.pc[base:]) if s.pc[base:] else z3.BoolVal(True)
+        if isinstance(v, Raised):
+            exc.append(cond)
+        else:
+            val.append(z3.And(cond, bool_term(truth(v, s))))
+    return (z3.Or(*val) if val else z3.BoolVal(False)), (z3.Or(*exc) if exc else z3.BoolVal(False)), \
+        len(results), assumptions
